@@ -362,7 +362,10 @@ func replayWatermarker(bi int, beh []mbt.Step, in *mbt.Input, res *mbt.Result) e
 		return fmt.Errorf("wmark.Watermarker.allowedLateness is unexported and always zero in the runner")
 	}
 	w := &wmark.Watermarker{}
-	tm := func(t int) time.Time { return time.Unix(0, int64(t)*unit) }
+	// Offset shifts the model's timestamps 1..MaxTs on the real time line: 0 = after the Unix epoch, 1 = the smallest one
+	// is the epoch itself, MaxTs+2 = all before 1970 (the property is about the order of timestamps, not their origin)
+	off := int64(in.CfgInt("Offset", 0))
+	tm := func(t int) time.Time { return time.Unix(0, (int64(t)-off)*unit) }
 	var prev *time.Time
 	for si, st := range beh {
 		if st.Str("a") != "Send" {
